@@ -619,6 +619,33 @@ fn symbol_heavy_job_of(g: &mut Gen, kind: usize) -> String {
     }
 }
 
+/// A program whose types go through two levels of type aliases; the alias NAMES come from a pool
+/// of two per level, the definitions differ from job to job (1-3 words), so that concurrent jobs
+/// declare same-named aliases with different meanings.
+fn alias_job(g: &mut Gen) -> String {
+    let s_name = *g.pick(&["Sample", "Unit"][..]);
+    let f_name = *g.pick(&["Frame", "Pair"][..]);
+    let n = g.int(1, 3) as usize;
+    let ty = match n { 1 => "float".to_string(), _ => format!("({})", vec!["float"; n].join(", ")) };
+    let lit = |base: usize| match n { 1 => format!("{}.0", base + 1), _ => format!("({})", (0..n).map(|i| format!("{}.0", base + i + 1)).collect::<Vec<_>>().join(", ")) };
+    let mut body = String::from("    let (a, b) = f\n");
+    let mut terms = vec![];
+    for (k, v) in ["a", "b"].iter().enumerate() {
+        if n == 1 {
+            terms.push(format!("{v} * {}.0", 10usize.pow(k as u32 * n as u32)));
+        } else {
+            let names: Vec<String> = (0..n).map(|i| format!("{v}{i}")).collect();
+            body.push_str(&format!("    let ({}) = {v}\n", names.join(", ")));
+            for (i, nm) in names.iter().enumerate() {
+                terms.push(format!("{nm} * {}.0", 10usize.pow((k * n + i) as u32)));
+            }
+        }
+    }
+    body.push_str(&format!("    {}\n", terms.join(" + ")));
+    let direct = if g.coin() { format!("fn first(s: {s_name}) -> {s_name} {{ s }}\n") } else { String::new() };
+    format!("type alias {s_name} = {ty}\ntype alias {f_name} = ({s_name}, {s_name})\n{direct}fn mix(f: {f_name}) -> float {{\n{body}}}\nfn dsp() {{\n    mix(({}, {}))\n}}\n", lit(0), lit(n))
+}
+
 fn short(r: &Result<String, String>) -> String {
     match r {
         Ok(d) => format!("ok:{:016x}", hash64(d.as_bytes())),
@@ -674,7 +701,7 @@ impl Prop for C19 {
                 classes.push("job:symbol-heavy".to_string());
                 continue;
             }
-            match g.weighted(&[4, 4, 2, 1, 1, if jobs.is_empty() { 0 } else { 3 }, 2]) {
+            match g.weighted(&[4, 4, 2, 1, 1, if jobs.is_empty() { 0 } else { 3 }, 2, 3]) {
                 0 => {
                     let mut pg = PG::new(g, cfg.clone());
                     let p = pg.program();
@@ -704,6 +731,10 @@ impl Prop for C19 {
                         jobs.push((crate::gens::sumgen::render(&p), false));
                         classes.push("job:sum".to_string());
                     }
+                }
+                7 => {
+                    jobs.push((alias_job(g), false));
+                    classes.push("job:alias".to_string());
                 }
                 5 => {
                     // the identifiers of an earlier job, mentioned in a shuffled order
@@ -800,7 +831,7 @@ impl Prop for C19 {
         out
     }
     fn rule(&self) -> String {
-        "Cases are sets of K=2..6 jobs; a job compiles a source for both backends and runs 8 samples on both runtimes (artefacts: bytecode listing, WASM bytes, state layouts, I/O channels, outputs; diagnostics or a panic signature for failing programs). Sources: generated programs, shipped sources (incl. programs with macros, which set the process environment variable, and modules), exact duplicates, near-duplicates differing in one literal, and broken texts. Sources also include programs over user sum types (half of them with a match that misses several constructors, so that the diagnostic lists names) and a program that mentions the identifiers of another job in a shuffled order. The compared artefacts include the diagnostic messages of refused programs. Each job is first run alone in its own fresh child process; then all jobs are started together on K OS threads behind a barrier in a fresh child process that has compiled nothing before (2 such processes per case). Oracle: every job's artefacts equal its solo artefacts; no panic that does not also occur alone. A difference is reported when it is seen in at least three concurrent runs (up to 20 further runs are made) and the solo artefacts are stable; otherwise it is counted as flaky-inconclusive. Non-trivial = at least two jobs that compile. Space `sched`: the same jobs (K=2..4) and the same oracle, but the interleaving belongs to the case: the repository hook `interner::verif_hooks` calls the harness in front of every session-globals access (about 14 000 such points per compiled job), a cooperative scheduler lets exactly one job thread run at a time and hands the turn over where the case's plan says; a plan is a list of 4..50 (segment length, thread pick) pairs drawn from the tape in five styles (fine alternation of 1-4 points, log-uniform up to 8 000, coarse up to 260 000, a burst of fine alternation after a quiet start of random length, mixed) and repeats cyclically. A difference under a plan is re-run with the same plan (up to 4 more times) and reported when seen at least twice; non-trivial there additionally needs at least 10 turn switches. Space `memcheck`: K=2..3 jobs, the first of them symbol-heavy (records with 2-8 fields, up to 200 fresh long identifiers, or nested modules with qualified paths), under a plan of fine alternation (1-3 scheduling points per turn; two thirds of the cases) or one of the five styles above; the child process that runs the jobs together is started under valgrind/memcheck (uninitialised-value tracking off, all other heap checking on). Oracle: memcheck reports no invalid read, invalid write, invalid or mismatched free; when it does, every job is run alone under memcheck as well, and only an error that none of the jobs shows alone is a failure (`c19:memory-error-only-when-concurrent:<kind>:<site>`, site = first frame in the repository's code); an error that also occurs alone is discarded and counted (it is C03's subject).".into()
+        "Cases are sets of K=2..6 jobs; a job compiles a source for both backends and runs 8 samples on both runtimes (artefacts: bytecode listing, WASM bytes, state layouts, I/O channels, outputs; diagnostics or a panic signature for failing programs). Sources: generated programs, shipped sources (incl. programs with macros, which set the process environment variable, and modules), exact duplicates, near-duplicates differing in one literal, and broken texts. Sources also include programs whose types go through two levels of type aliases (alias names from a pool of two per level, definitions of 1-3 words that differ from job to job), programs over user sum types (half of them with a match that misses several constructors, so that the diagnostic lists names) and a program that mentions the identifiers of another job in a shuffled order. The compared artefacts include the diagnostic messages of refused programs. Each job is first run alone in its own fresh child process; then all jobs are started together on K OS threads behind a barrier in a fresh child process that has compiled nothing before (2 such processes per case). Oracle: every job's artefacts equal its solo artefacts; no panic that does not also occur alone. A difference is reported when it is seen in at least three concurrent runs (up to 20 further runs are made) and the solo artefacts are stable; otherwise it is counted as flaky-inconclusive. Non-trivial = at least two jobs that compile. Space `sched`: the same jobs (K=2..4) and the same oracle, but the interleaving belongs to the case: the repository hook `interner::verif_hooks` calls the harness in front of every session-globals access (about 14 000 such points per compiled job), a cooperative scheduler lets exactly one job thread run at a time and hands the turn over where the case's plan says; a plan is a list of 4..50 (segment length, thread pick) pairs drawn from the tape in five styles (fine alternation of 1-4 points, log-uniform up to 8 000, coarse up to 260 000, a burst of fine alternation after a quiet start of random length, mixed) and repeats cyclically. A difference under a plan is re-run with the same plan (up to 4 more times) and reported when seen at least twice; non-trivial there additionally needs at least 10 turn switches. Space `memcheck`: K=2..3 jobs, the first of them symbol-heavy (records with 2-8 fields, up to 200 fresh long identifiers, or nested modules with qualified paths), under a plan of fine alternation (1-3 scheduling points per turn; two thirds of the cases) or one of the five styles above; the child process that runs the jobs together is started under valgrind/memcheck (uninitialised-value tracking off, all other heap checking on). Oracle: memcheck reports no invalid read, invalid write, invalid or mismatched free; when it does, every job is run alone under memcheck as well, and only an error that none of the jobs shows alone is a failure (`c19:memory-error-only-when-concurrent:<kind>:<site>`, site = first frame in the repository's code); an error that also occurs alone is discarded and counted (it is C03's subject).".into()
     }
     fn assumptions(&self) -> Vec<String> {
         vec![
